@@ -230,12 +230,29 @@ func main() {
 			emit(w, o, id, "catalogue", cc.c)
 		}
 	}
+	nf := o.Count(60, 1000)
+	if o.N > 0 {
+		nf = o.N / 6
+	}
+	for i := 0; i < nf; i++ {
+		id := fmt.Sprintf("fun/%d", i)
+		if !o.Want(id) {
+			continue
+		}
+		op, arg, m := msgx.GenFun(hx.NewRNG(o.Seed, id))
+		w.Emit("helper", hx.Case{ID: id, Coq: msgx.RunFun(op, arg, m), Desc: map[string]any{"kind": "helper", "op": op, "arg": arg}, FKey: "helper"})
+	}
 	n := o.Count(700, 15000)
 	for i := 0; i < n; i++ {
 		id := fmt.Sprintf("rnd/%d", i)
 		if !o.Want(id) {
 			continue
 		}
-		emit(w, o, id, "random", msgx.GenCaseC03(hx.NewRNG(o.Seed, id)))
+		r := hx.NewRNG(o.Seed, id)
+		if i%2 == 1 {
+			emit(w, o, id, "structured", msgx.GenStructuredC03(r))
+		} else {
+			emit(w, o, id, "random", msgx.GenCaseC03(r))
+		}
 	}
 }
